@@ -39,6 +39,8 @@ KB = Bits4(3)
 K3 = Bits8(3)
 K1 = Bits8(1)
 KA = Bits8(200)
+KN = -3
+KM = -128
 '''
 
 # leaf -> (source text, class tag used in signatures)
@@ -120,6 +122,7 @@ for w, rhs in [(8, "-200"), (8, "-1"), (8, "~200"), (8, "~0"), (4, "-8"), (4, "-
                (3, "K3 + K1"), (8, "K3 + K1"), (9, "KA + KA"), (8, "KA + KA"), (8, "s.in8 + (K3 + K1)"), (8, "s.in8 + (KI + 1)"), (8, "KB + 1"),
                (16, "s.clst[0 + 1]"), (8, "s.clst[0 + 1]"), (8, "s.clst[1]"), (16, "s.clst[1]"),
                (6, "s.in4a[s.in4b[0:2]:s.in4b[0:2] + 6]"), (2, "s.in4a[s.in4b[0:2]:s.in4b[0:2] + 2]"),
+               (2, "KN"), (3, "KN"), (8, "KN"), (7, "KM"), (8, "KM"), (8, "s.in8 & KN"),
                (6, "St10(300, 1)"), (6, "St10(s.in4a, 5)"), (6, "St10(3, s.in1)")]:
   RAW.append((f"const:o{w}<-{rhs}", w, ["{o} @= " + rhs]))
 for w, cmp_ in [(1, "s.in8 == -1"), (1, "s.in4a < -1"), (1, "s.in8 == ~0"), (1, "s.in8 != 1 - 2")]:
